@@ -1065,6 +1065,10 @@ func gen(r *hx.Rng, tier string, i int) []hx.Zs {
 		}
 		return raceSched(r)
 	}
+	if i%16 == 2 {
+		// an entity announced again without its features, then torn down
+		return stack.Reannounce(r)
+	}
 	if i%8 == 6 {
 		// a delete call of one peer overlapped by a bind call of another (atomicity of RemoveBinding)
 		return stack.DeleteOverlap(r, true)
